@@ -7,6 +7,8 @@ structure GNode where
   inDict : Bool      -- child.dict_container is truthy
   anc : List Nat     -- uids, in list order
   chi : List Nat     -- uids, in list order
+  isCalc : Bool := false   -- the slot is a calculated attribute (has an update function)
+  live : Bool := true    -- the value is currently held by the model
 deriving Repr, Inhabited
 
 abbrev G := Array GNode
@@ -82,5 +84,16 @@ def attrUpdatesChain (g : G) (fuel : Nat) (u : Nat) : Option (List (Nat × Bool)
   let descSids := desc.map (fun d => (g.node d).sid)
   let s := whileLoop g selfSid descSids fuel { added := [], chain := [], cur := [u], iter := [], same := false }
   if s.err then none else some (keepLast s.chain)
+
+/-! ## slot-level view (one node per attribute slot; all entries of a dict share the slot) -/
+
+def dedupNat (l : List Nat) : List Nat := l.foldl (fun acc x => if acc.contains x then acc else acc ++ [x]) []
+
+/-- slots (sids) a slot's current values were computed from, as recorded -/
+def slotReads (g : G) (s : Nat) : List Nat :=
+  dedupNat ((g.toList.filter (fun n => n.live && n.sid == s)).flatMap (fun n => n.anc.map (fun a => (g.node a).sid)))
+    |>.filter (· != s)
+
+def calcSlots (g : G) : List Nat := dedupNat ((g.toList.filter (fun n => n.live && n.isCalc)).map (·.sid))
 
 end Efp.Graph
